@@ -135,6 +135,16 @@ def named_like_hoisted_text(rng):
             lines.append("float array %s =\n    %s" % (nm, ", ".join(str(rng.randint(1, 9) + 10 * k) for _ in range(2))))
         if rng.random() < 0.5:
             lines.append("float array p0 =\n    0.5, 0.25")
+        if rng.random() < 0.5:
+            # an argument array that equals a variable called A0 / A1 up to the sign of a zero
+            ty = rng.choice(["float", "complex"])
+            z = {"float": ("0.0, 1", "-0.0, 1"), "complex": ("1+0.0j, 2", "1-0.0j, 2")}[ty]
+            k = rng.randint(0, 1)
+            lines = [ln for ln in lines if not ln.startswith("float array A%d =" % k)]
+            names = [n for n in names if n != "A%d" % k] + ["A%d" % k, "Wz"]
+            lines.append("%s array A%d =\n    %s" % (ty, k, z[rng.randint(0, 1)]))
+            lines.append("%s array Wz =\n    %s" % (ty, z[rng.randint(0, 1)]))
+            lines.append(rng.choice(["Sgate(Wz, 0.5) | 0", "Kgate(U=Wz) | 1"]))
         for _ in range(rng.randint(1, 4)):
             a, b = rng.sample(names, 2)
             lines.append(rng.choice(["Sgate(%s, 0.5) | 0\nDgate(%s) | 1", "BSgate(%s, U=%s) | [0, 1]", "Kgate(U=%s, V=%s) | 1", "Ggate(%s) | 0\nGgate(%s, 1) | 1"]) % (a, b))
